@@ -46,10 +46,6 @@ def run(ctx):
         ctx.guard("C01", "delegate", lambda: gen.finalizers_delegate(ctx, prog))
         ctx.guard("C01", "digest-src", lambda: engine.digest_sources(ctx, prog))
         ctx.guard("C01", "digest-last", lambda: piece.digest_last_piece(ctx, prog))
-        ctx.guard("C01", "summaries", lambda: summary.check(ctx, prog, 'internals::generate::(hashes::|BlockHashContext|Generator::(new|guessed_preferred_max_input_size_at)$)', floor=2))
-        ctx.guard("C01", "path summaries", lambda: summary.check_paths(ctx, prog, 'internals::generate::(hashes::|BlockHashContext|Generator::(new|guessed_preferred_max_input_size_at)$)', floor=0))
-        if c in ("dbg", "unsafe_dbg", "strict_dbg"):
-            ctx.guard("C01", "beliefs", lambda: beliefs.census(ctx, prog, beliefs.SCOPES["C01"][0], floor=beliefs.SCOPES["C01"][1]))
         ctx.guard("C01", "casts", lambda: casts.census(ctx, prog, scope='internals::generate::', floor=3))
         if c.startswith("unsafe"):
             ctx.guard("C01", "mirror", lambda: engine.mirror(ctx, prog))
@@ -59,5 +55,9 @@ def run(ctx):
             ctx.guard("C01", "trigger", lambda: engine.trigger_and_levels(ctx, prog))
             ctx.guard("C01", "thresholds", lambda: engine.step_thresholds(ctx, prog))
             ctx.guard("C01", "piece", lambda: piece.piece_effects(ctx, prog))
+        ctx.guard("C01", "summaries", lambda: summary.check(ctx, prog, 'internals::generate::(hashes::|BlockHashContext|Generator::(new|guessed_preferred_max_input_size_at)$)', floor=2))
+        ctx.guard("C01", "path summaries", lambda: summary.check_paths(ctx, prog, 'internals::generate::(hashes::|BlockHashContext|Generator::(new|guessed_preferred_max_input_size_at)$)', floor=0))
+        if c in ("dbg", "unsafe_dbg", "strict_dbg"):
+            ctx.guard("C01", "beliefs", lambda: beliefs.census(ctx, prog, beliefs.SCOPES["C01"][0], floor=beliefs.SCOPES["C01"][1]))
     return ctx.finish(EXPL, ["ssdeep's engine step as transcribed in the rule table of sa/rules/piece.py (reviewed against fuzzy.c 2.14.1: fuzzy_engine_step, fuzzy_try_fork_blockhash, fuzzy_try_reduce_blockhash, fuzzy_digest)",
                              "rustc's const evaluation of the FNV table and block-size constants", "u32/u64 wrapping_* and saturating_* have their documented meaning"])
